@@ -1,5 +1,6 @@
 """C06 - every connection end is reported exactly once and leaves nothing on the server."""
 import json
+import re
 
 from lib.vlib import gN, gbool, glist, gpair, gstring_bytes
 
@@ -59,12 +60,11 @@ def cases_of(row):
     return [(s, ph, cs, obs, sid_known) for (s, ph, cs, obs) in res]
 
 
-def term(ph, cs, obs, sid_known):
+def obs_term(obs, sid_known):
     sl = lambda l: glist(gstring_bytes(x) for x in l)
-    o = "(mkSobs %s %s %s %s %s %s %s %s %s %s)" % (
+    return "(mkSobs %s %s %s %s %s %s %s %s %s %s)" % (
         gbool(obs["connected"]), sl(obs["discing_m"]), sl(obs["disc_m"]), sl(obs["discing_h"]), sl(obs["disc_h"]),
         gbool(obs["order_ok"]), gbool(obs["in_nsp"]), gbool(obs["rooms"]), gbool(obs["conn_flag"]), gbool(sid_known))
-    return gpair(gN(ph), glist(cs), o)
 
 
 def scen(row):
@@ -72,19 +72,33 @@ def scen(row):
 
 
 def evaluate(ctx, name, rows):
-    """returns per-row lists of (socket, oracle_ok, oracle_m_ok, agree_ok)"""
-    terms, index = [], []
+    """returns per-row lists of (socket, oracle_ok, oracle_m_ok, agree_ok, phase, causes).  Observations are
+    grouped by (phase, model causes): the model is explored once per group, identical observations once."""
+    groups, index = {}, []
     for ri, row in enumerate(rows):
         for (s, ph, cs, obs, sk) in cases_of(row):
-            terms.append(term(ph, cs, obs, sk))
-            index.append((ri, s, ph, cs))
-    bad_o = set(ctx.coq_eval_cases(name + "_oracle", HDR, terms, "oracle", shard=200))
-    bad_m = set(ctx.coq_eval_cases(name + "_oraclem", HDR, terms, "oracle_m", shard=200))
-    bad_a = set(ctx.coq_eval_cases(name + "_agree", HDR, terms, "agree", shard=12))
+            g = groups.setdefault((ph, tuple(cs)), {})
+            o = obs_term(obs, sk)
+            g.setdefault(o, len(g))
+            index.append((ri, s, ph, cs, o))
+    keys = sorted(groups, key=lambda k: (-len(k[1]), k))
+    # few coqc processes (start-up dominates on a loaded machine), equal mixes of big and small cause sets
+    nsh = min(6, max(1, len(keys) // 4))
+    keys = [k for j in range(nsh) for k in keys[j::nsh]]
+    terms = ["codes_group %s" % gpair(gN(ph), glist(cs), glist(sorted(groups[(ph, cs)], key=lambda o: groups[(ph, cs)][o])))
+             for (ph, cs) in keys]
+    vals = ctx.coq_eval_values(name, HDR, terms, shard=(len(terms) + nsh - 1) // nsh)
+    codes = {}
+    for k, v in zip(keys, vals):
+        nums = [int(x) for x in re.findall(r"\d+", v)]
+        if len(nums) != len(groups[k]):
+            raise RuntimeError("cannot parse verdicts %r" % v)
+        codes[k] = nums
     per_row = {}
-    for i, (ri, s, ph, cs) in enumerate(index):
-        per_row.setdefault(ri, []).append((s, i not in bad_o, i not in bad_m, i not in bad_a, ph, cs))
-    return per_row, len(terms)
+    for (ri, s, ph, cs, o) in index:
+        c = codes[(ph, tuple(cs))][groups[(ph, tuple(cs))][o]]
+        per_row.setdefault(ri, []).append((s, bool(c & 1), bool(c & 2), bool(c & 4), ph, cs))
+    return per_row, len(index), sum(len(g) for g in groups.values())
 
 
 def rerun(ctx, vh, row, times=2):
@@ -103,7 +117,7 @@ def run(ctx):
                 "multi-cause scenarios, and a TCP cut after every %d-th byte (both directions) of scripted polling / "
                 "websocket / upgrade sessions; one evaluation = one server socket of one scenario; non-trivial = the "
                 "socket had connected and its end was reported (distinct (transport, phase, causes, reason))" % stride)
-    ctx.trusted = ["Coq 8.16.1 kernel + vm_compute (the control system of Sio/Lifecycle.v, 25618 states, is explored "
+    ctx.trusted = ["Coq 8.16.1 kernel + vm_compute (the control system of Sio/Lifecycle.v, 16106 reachable states, is explored "
                    "inside the kernel: Sio/LifecycleInv.reach_ok_code)",
                    "hand-written model Sio/Lifecycle.v tied by kernel-evaluated agreement of every recorded outcome with "
                    "the model's outcome set for the fired causes",
@@ -129,7 +143,7 @@ def run(ctx):
             len(env), len(env) + len(rows), env[0]["env_fail"]),
             {"kind": "correspondence-broken", "suite": "lifecycle", "case": scen(env[0])}, no_input=True)
         return
-    per_row, ncases = evaluate(ctx, "lc", rows)
+    per_row, ncases, ndistinct = evaluate(ctx, "lc", rows)
 
     bad_oracle, bad_agree, late = [], [], []
     for ri, row in enumerate(rows):
@@ -158,21 +172,25 @@ def run(ctx):
         seen.add(ri)
         again = rerun(ctx, vh, rows[ri])
         again = [r for r in again if not r.get("env_fail")]
-        pr, _ = evaluate(ctx, "lc_re%d" % ri, again) if again else ({}, 0)
+        pr = evaluate(ctx, "lc_re%d" % ri, again)[0] if again else {}
         refail = [(again[k], x) for k, lst in pr.items() for x in lst if not x[2]]
-        if refail or rows[ri]["settled"]:
+        # a duplicate or spurious report is a fact of the recorded history; a leftover / missing report /
+        # known sid may be the loaded machine (deadline passed) and has to show again
+        hard = bool(s and (len(s["disc_m"]) > 1 or len(s["discing_m"]) > 1 or len(s["disc_h"]) > 1
+                           or (not s["connected"] and (s["disc_m"] or s["disc_h"]))))
+        if refail or hard:
             confirmed.append((rows[ri], s, refail))
         else:
             flaky += 1
     ctx.indeterminate += flaky
     if flaky:
-        ctx.note("%d unsettled scenario(s) failed once and passed twice when re-run alone (counted as indeterminate)" % flaky)
+        ctx.note("%d scenario(s) failed once (no duplicate/spurious report) and passed twice when re-run alone: counted as indeterminate" % flaky)
 
     ctx.obligation("oracle:lifecycle", "oracle", not confirmed,
                    "%d socket observations of %d scenarios, %d fail (exactly once / reason / leftovers / sid)" % (
                        ncases, len(rows), len(confirmed)))
     ctx.obligation("correspondence:lifecycle", "correspondence", not bad_agree,
-                   "%d socket observations, %d are not an outcome of the model for the fired causes" % (ncases, len(bad_agree)))
+                   "%d socket observations (%d distinct), %d are not an outcome of the model for the fired causes" % (ncases, ndistinct, len(bad_agree)))
     for (row, s, refail) in confirmed[:4]:
         leak = bool(s and (s["in_nsp"] or s["in_fetch"] or s["in_adapter"] or s["rooms"] or s["conn_flag"]))
         what = ("connection end not reported exactly once / leaves a trace: scenario %s fired=%s reached=%s -> socket %s; "
